@@ -370,6 +370,8 @@ class ProgramGen(object):
         opts.append('lit')
         if self.visible(lambda v: v == ('trn', ty)):
             opts += ['var', 'var']
+        if self.visible(lambda v: v[0] == 'arr' and v[1] == ty):
+            opts += ['elem']
         attr_src = []
         for h, kl in self.handles():
             c = class_of(kl)
@@ -452,6 +454,12 @@ class ProgramGen(object):
             k = 'lit'
         if k == 'var':
             return r.choice(self.visible(lambda v: v == ('trn', ty))), False
+        if k == 'elem':
+            name = r.choice(self.visible(lambda v: v[0] == 'arr' and v[1] == ty))
+            dims = self.lookup(name)[2]
+            idx = ''.join('[%s]' % (self.lit('integer') if r.random() < 0.7 else self.expr('integer', depth + 2, sel)[0])
+                          for _ in range(dims))
+            return name + idx, False
         if k == 'attr':
             return r.choice(attr_src), False
         if k == 'param':
@@ -528,7 +536,7 @@ class ProgramGen(object):
 
     def kinds(self, depth):
         ks = ['assign', 'assign', 'assign', 'attr', 'create', 'create_nv', 'select_from', 'select_from',
-              'select_from_where', 'invoke', 'invoke', 'assign_call', 'return', 'control']
+              'select_from_where', 'invoke', 'invoke', 'assign_call', 'return', 'control', 'array']
         if depth < 3:
             ks += ['if', 'if', 'while']
         if self.inst_vars():
@@ -560,6 +568,20 @@ class ProgramGen(object):
                 name = self.fresh({'integer': 'i', 'real': 'x', 'string': 's', 'boolean': 'b'}.get(ty, 'e'))
                 self.declare(name, ('trn', ty))
             return [['s', '%s = %s' % (name, e), 'assign']]
+        if k == 'array':
+            ty = r.choice(SCALARS)
+            existing = self.visible(lambda v: v[0] == 'arr' and v[1] == ty)
+            value = self.expr(ty, 1)[0]          # before the array exists: it cannot refer to itself
+            if existing and r.random() < 0.5:
+                name = r.choice(existing)
+                dims = self.lookup(name)[2]
+            else:
+                name = self.fresh('arr')
+                dims = r.choice([1, 1, 2])
+                self.declare(name, ('arr', ty, dims))
+            # the first assignment sizes the array from constant indices (eval_constant_expression)
+            idx = ''.join('[%d]' % r.choice([0, 1, 2, 5]) for _ in range(dims))
+            return [['s', '%s%s = %s' % (name, idx, value), 'assign']]
         if k == 'assign_call':
             ty = r.choice(['integer', 'string', 'real', 'boolean'])
             inv = self.invocation(ty, 0, None)
@@ -820,6 +842,10 @@ def count_statements(prog):
 
 # --------------------------------------------------------------------------- running the implementation
 
+class OutOfDomain(Exception):
+    """the body names something that does not exist (not name-resolved): not an input of C05 / C06"""
+
+
 class Rig(object):
     """Everything a case needs from the workspace copy of the repository (created once per process, in `setup`):
     the ooaofooa loader (schema parsed once), one OAL parser, one PLY lexer for tokenising generated text."""
@@ -849,15 +875,23 @@ class Rig(object):
         return self.parser.text_input(text + '\n')
 
     def translate(self, home, text, via_model=False):
-        """fresh base model, body text placed in the home, prebuild, regenerate: (metamodel, home instance, text)"""
+        """fresh base model, body text placed in the home, prebuild, regenerate: (metamodel, home instance, text).
+        Raises OutOfDomain when the prebuilder itself reports an unresolved name (its two documented
+        `raise Exception("Unknown …")` sites): such a body is not name-resolved, i.e. outside the property's domain
+        (only the case minimiser can produce one, by deleting the statement that declares a variable)."""
         m, homes = self.fresh()
         h = homes[home]
         h.Action_Semantics_internal = text
         h.Suc_Pars = 1
-        if via_model:
-            self.prebuild.prebuild_model(m)
-        else:
-            self.prebuild.prebuild_action(h)
+        try:
+            if via_model:
+                self.prebuild.prebuild_model(m)
+            else:
+                self.prebuild.prebuild_action(h)
+        except Exception as e:
+            if type(e) is Exception and str(e).startswith(('Unknown transient', 'Unknown identifier')):
+                raise OutOfDomain(str(e))
+            raise
         return m, h, self.sourcegen.gen_text_action(h)
 
     def tokens(self, text):
